@@ -9,6 +9,7 @@ package resources
 
 import (
 	"errors"
+	"time"
 
 	"github.com/DistCompiler/pgo/distsys"
 	"github.com/DistCompiler/pgo/distsys/tla"
@@ -143,15 +144,20 @@ func HarnessC19_Detector() {
 
 // ReadValue in isolation: arbitrary stored state
 func HarnessC19_ReadValue() {
-	fd := &SingleFailureDetector{pullInterval: failureDetectorPullInterval}
+	// every polling-interval / time-out setting: both symbolic
+	pull, timeout := verifNondetInt64("pullInterval"), verifNondetInt64("timeout")
+	verifAssume(pull > 0 && pull <= 1<<40 && timeout > 0 && timeout <= 1<<40)
+	fd := &SingleFailureDetector{pullInterval: time.Duration(pull), timeout: time.Duration(timeout)}
 	st := ArchetypeState(verifChoose("state", 5))
 	fd.state = st
 	sleeps := verifSleepCount()
+	slept := verifSleepTotal()
 	v, err := fd.ReadValue(distsys.ArchetypeInterface{})
 	verifAssert(fd.state == st, "ReadValue leaves the state alone")
 	switch st {
 	case uninitialized:
 		verifAssert(err == distsys.ErrCriticalSectionAborted && verifSleepCount() == sleeps+1, "uninitialised: one interval, abort")
+		verifAssert(verifSleepTotal()-slept <= pull, "reading the detector never delays a critical section by more than one polling interval")
 	case alive:
 		verifAssert(err == nil && !v.AsBool() && verifSleepCount() == sleeps, "alive maps to FALSE")
 	default:
